@@ -168,6 +168,100 @@ def fault_counts(T, sc, W, phase, encbytes=None):
     return rc, counts
 
 
+def multi_file(T, sc, W, stats):
+    """Three files encrypted by ONE invocation must each decrypt on their own (one invocation per file), and three
+    encrypted files decrypted by one invocation must all be restored; a tampered file among them is refused."""
+    if sc["naming"] == "o":
+        return None      # -o allows a single input file
+    names = [sc["name"], "b" + sc["name"], "c" + sc["name"]]
+    sizes = [sc["size"], (sc["size"] * 7 + 3) % 5000, (sc["cseed"] % 3) * 17]
+    datas = [content(sizes[i], sc["cseed"] + 11 * i) for i in range(3)]
+    wd = W.sub()
+    for nme, d in zip(names, datas):
+        with open(os.path.join(wd, nme), "wb") as f:
+            f.write(d)
+    rc, so, se = runp([T["asconcrypt"]] + pw_args(sc, wd) + names, wd)
+    stats["runs"] += 1
+    stats["nontrivial"].add(("multi", sc["size"], sc["cseed"]))
+    if rc != 0:
+        return ("encrypting three files in one invocation failed: rc=%d stderr=%s" % (rc, se.decode("utf-8", "replace")[-200:]), {"step": "multi-encrypt"})
+    encs = []
+    for nme, d in zip(names, datas):
+        pth = os.path.join(wd, nme + ".ascon")
+        if not os.path.exists(pth) or os.path.getsize(pth) != len(d) + HDR:
+            return ("encrypting three files in one invocation: %s.ascon missing or of the wrong size" % nme, {"step": "multi-encrypt"})
+        encs.append(open(pth, "rb").read())
+    # each one alone
+    for i, (nme, d, e) in enumerate(zip(names, datas, encs)):
+        sc2 = dict(sc, name=nme)
+        rc, se, out = decrypt(T, sc2, W.sub(), e)
+        stats["runs"] += 1
+        if rc != 0 or out != d:
+            return ("file #%d of a three-file encryption does not decrypt on its own with the right password: rc=%d identical=%s stderr=%s"
+                    % (i + 1, rc, out == d, se.decode("utf-8", "replace")[-160:]), {"step": "multi-then-single", "index": i})
+        err = expect_reject(T, sc2, W, e, "file #%d of a three-file encryption, wrong password" % (i + 1), password=sc["password"] + "q")
+        stats["runs"] += 1
+        if err:
+            return (err, {"step": "multi-then-single-wrongpw", "index": i})
+    # all three in one decrypt invocation, the middle one tampered in a second run
+    for tamper in (False, True):
+        wd2 = W.sub()
+        for i, (nme, e) in enumerate(zip(names, encs)):
+            b = bytearray(e)
+            if tamper and i == 1:
+                b[len(b) // 2] ^= 0x10
+            with open(os.path.join(wd2, nme + ".ascon"), "wb") as f:
+                f.write(bytes(b))
+        order = [names[2] + ".ascon", names[1] + ".ascon", names[0] + ".ascon"]
+        rc, so, se = runp([T["asconcrypt"]] + pw_args(sc, wd2) + order, wd2)
+        stats["runs"] += 1
+        if not tamper:
+            for nme, d in zip(names, datas):
+                pth = os.path.join(wd2, nme)
+                if rc != 0 or not os.path.exists(pth) or open(pth, "rb").read() != d:
+                    return ("decrypting three files in one invocation: rc=%d, %s not restored (stderr=%s)" % (rc, nme, se.decode("utf-8", "replace")[-160:]), {"step": "multi-decrypt"})
+        else:
+            if rc == 0:
+                return ("decrypting three files, the second one modified: asconcrypt exited 0", {"step": "multi-decrypt-tampered"})
+            if os.path.exists(os.path.join(wd2, names[1])):
+                return ("decrypting three files, the second one modified: an output file for it was left behind", {"step": "multi-decrypt-tampered"})
+    return None
+
+
+def stdio_form(T, sc, W, data, enc, stats):
+    """asconcrypt -e ... - encrypts standard input to standard output; -d ... - decrypts it; both interoperate with files."""
+    wd = W.sub()
+    with open(os.path.join(wd, "in.bin"), "wb") as f:
+        f.write(data)
+    with open(os.path.join(wd, "in.bin"), "rb") as fin:
+        rc, so, se = runp([T["asconcrypt"], "-e"] + pw_args(sc, wd) + ["-"], wd, stdin=fin)
+    stats["runs"] += 1
+    stats["nontrivial"].add(("stdio", sc["size"], sc["cseed"]))
+    if rc != 0 or len(so) != len(data) + HDR:
+        return ("encrypting standard input: rc=%d, %d bytes on standard output, expected %d" % (rc, len(so), len(data) + HDR), {"step": "stdio-encrypt"})
+    # what came out of the pipe decrypts as a file ...
+    sc2 = dict(sc, naming="o")
+    rc, se, out = decrypt(T, sc2, W.sub(), so)
+    stats["runs"] += 1
+    if rc != 0 or out != data:
+        return ("the output of encrypting standard input does not decrypt to the input (rc=%d)" % rc, {"step": "stdio-encrypt"})
+    # ... and a file encrypted earlier decrypts through the pipe; a modified one is refused without output
+    for tamper in (False, True):
+        b = bytearray(enc)
+        if tamper:
+            b[-1] ^= 1
+        with open(os.path.join(wd, "enc.bin"), "wb") as f:
+            f.write(bytes(b))
+        with open(os.path.join(wd, "enc.bin"), "rb") as fin:
+            rc, so, se = runp([T["asconcrypt"], "-d"] + pw_args(sc, wd) + ["-"], wd, stdin=fin)
+        stats["runs"] += 1
+        if not tamper and (rc != 0 or so != data):
+            return ("decrypting standard input: rc=%d identical=%s" % (rc, so == data), {"step": "stdio-decrypt"})
+        if tamper and rc == 0:
+            return ("decrypting a modified file from standard input: asconcrypt exited 0", {"step": "stdio-decrypt-tampered"})
+    return None
+
+
 def check_case(T, sc, stats, tier):
     """Returns None or (message, scenario-detail dict)."""
     W = Work()
@@ -185,6 +279,13 @@ def check_case(T, sc, stats, tier):
         stats["runs"] += 1
         if rc != 0 or out != data:
             return ("round trip failed: rc=%d identical=%s stderr=%s" % (rc, out == data, se.decode("utf-8", "replace")[-200:]), {"step": "roundtrip"})
+        # several files on one command line, and the standard-input / standard-output form
+        e = multi_file(T, sc, W, stats)
+        if e:
+            return e
+        e = stdio_form(T, sc, W, data, enc, stats)
+        if e:
+            return e
         # wrong passwords
         for wpw in (sc["password"] + "x", sc["password"][:-1] or "y", sc["password"].swapcase() if sc["password"].swapcase() != sc["password"] else sc["password"] + " "):
             if wpw == sc["password"]:
